@@ -2,6 +2,7 @@ import TexelVerif.PosImpl.History
 import TexelVerif.PosImpl.Serial
 import TexelVerif.PosImpl.MatId
 import TexelVerif.Chess.FenRT
+import TexelVerif.Drv.Pos
 /-!
 # C02 — position state survives any make/unmake history intact
 
@@ -186,6 +187,30 @@ theorem history_takeback (T : Tables) (s : PosImpl) (f : Frame) (st : List Frame
   cases hg with
   | cons _ _ _ _ _ _ hu _ => simp only [step]; rw [hu]
 
+/-- king squares (derived from the king bitboards) are the first square holding the king -/
+theorem kingSq_inv (T : Tables) (s : PosImpl) (h : PosImpl.Inv T s) :
+    s.wKingSq = (List.range 64).find? (fun i => getP s.squares i == WKING) ∧
+    s.bKingSq = (List.range 64).find? (fun i => getP s.squares i == BKING) := kingSq_spec T s h
+
+/-- every position the FEN reader accepts is a well-formed start of a history: the state built from it satisfies
+    the invariant and its e.p. flag is meaningful -/
+theorem accepted_start_good (T : Tables) (fen : String) (p : Pos) (h : readFEN fen = .ok p) :
+    Good T (fresh T p) [] [] := by
+  refine Good.nil _ ⟨fresh_inv T p, ?_⟩
+  show EpOk p
+  intro e he
+  have hp := readFEN_epPlausible fen p h e he
+  unfold epPlausible at hp
+  cases hw : p.wtm
+  · rw [hw] at hp
+    simp only [Bool.false_eq_true, if_false] at hp ⊢
+    refine ⟨?_, hp.2.2⟩
+    rw [getP_eq _ _ e.isLt]; exact hp.2.1
+  · rw [hw] at hp
+    simp only [if_true] at hp ⊢
+    refine ⟨?_, hp.2.2⟩
+    rw [getP_eq _ _ e.isLt]; exact hp.2.1
+
 /-! ## equal positions have equal keys -/
 
 /-- positions that are equal under the repetition rule (`drawRuleEquals`) have the same hash key, pawn hash key,
@@ -267,6 +292,9 @@ theorem matId_in_uint32 (c : Counts) (h : PromoConsistent c) :
 /-- … and the identifier is unique per material configuration that legal play can produce -/
 theorem matId_injective (c₁ c₂ : Counts) (h₁ : PromoConsistent c₁) (h₂ : PromoConsistent c₂)
     (h : matIdNat c₁ = matIdNat c₂) : c₁ = c₂ := PosImpl.matId_injective c₁ c₂ h₁ h₂ h
+
+/-- the weight table checked against `MatId::materialId[]` by the tie (`pos matw`) is the one of these theorems -/
+theorem matWeights_eq : Drv.Pos.matWeights = (List.range 13).map (fun i => matW i.toUInt8) := by decide
 
 /-- the model's `matId` field with the real weight table is that identifier (as a 32-bit value) -/
 theorem matId_model (T : Tables) (hT : T.mat = matTable) (s : PosImpl) (h : PosImpl.Inv T s) :
